@@ -776,13 +776,22 @@ class ModuleVistor(NodeVisitor):
             annotation = unstring_annotation(ast.Constant(type_comment, lineno=lineno), self.builder.current)
 
         for target in node.targets:
-            if isinstance(target, ast.Tuple):
-                for elem in target.elts:
-                    # Note: We skip type and aliasing analysis for this case,
-                    #       but we do record line numbers.
-                    self._handleAssignment(elem, None, None, lineno)
+            if isinstance(target, (ast.Tuple, ast.List)):
+                # Note: We skip type and aliasing analysis for this case,
+                #       but we do record line numbers.
+                self._handleUnpackingTarget(target, lineno)
             else:
                 self._handleAssignment(target, annotation, expr, lineno)
+
+    def _handleUnpackingTarget(self, target: ast.expr, lineno: int) -> None:
+        """Record the names bound by a (possibly nested or starred) unpacking target."""
+        if isinstance(target, (ast.Tuple, ast.List)):
+            for elem in target.elts:
+                self._handleUnpackingTarget(elem, lineno)
+        elif isinstance(target, ast.Starred):
+            self._handleUnpackingTarget(target.value, lineno)
+        else:
+            self._handleAssignment(target, None, None, lineno)
 
     def visit_AnnAssign(self, node: ast.AnnAssign) -> None:
         annotation = unstring_annotation(node.annotation, self.builder.current)
